@@ -1096,6 +1096,16 @@ def quantifier_under_negation(e, neg=False):
     return False
 
 
+def _free_vars(e):
+    """variable expressions occurring in e (bound ones included: only used on effect fluents/values)"""
+    if e.is_variable_exp():
+        return [e]
+    out = []
+    for a in e.args:
+        out += _free_vars(a)
+    return out
+
+
 def shape_tags(problem):
     """narrow tags describing the input shape (used by KNOWN_FINDINGS signatures)"""
     tags = set()
@@ -1128,6 +1138,14 @@ def shape_tags(problem):
                 if conds and len(set(str(e.value) for e in asg)) > 1:
                     tags.add("syntactically-different-assignments-to-one-fluent")
         for e in effs:
+            if e.is_forall() and e.is_assignment():
+                # forall v. f(args) := value(v) with some v missing from args: the expansion assigns one ground
+                # fluent several syntactically different values (equal or not only at run time)
+                fv = set(e.forall)
+                in_args = set(v.variable() for a_ in e.fluent.args for v in _free_vars(a_))
+                in_val = set(v.variable() for v in _free_vars(e.value))
+                if (fv - in_args) & in_val:
+                    tags.add("forall-effect-assigns-one-fluent-several-values")
             if e.is_conditional() and (e.is_increase() or e.is_decrease()):
                 c = e.condition
                 if c.is_or() or c.is_implies() or (c.is_not() and c.arg(0).is_and()) or c.is_iff() or c.is_exists():
